@@ -103,6 +103,14 @@ CHECKS = {
    design_ref='5 (C13)',
    note=TB + ' One-level abstract game; nested calls by contract-or-abort; nodes with <= 2 (quick) / 3 (thorough) moves; quiescence has no insert site.',
    technique='symbolic execution of rustc MIR into z3; inductive step with symbolic cut points; observed cache writes as obligations'),
+ 'C08': dict(
+   category='other',
+   text=('Compositional: (PARSE) UCICommand::new executed from MIR on abstract token lists `position ...` of <= 12 tokens: kind, the six FEN tokens and the move tokens are exactly the grammar slices, anything else is Err, no panic; '
+         '(LOAD) Uci::load_position executed from MIR with boards/moves as uninterpreted terms: all moves accepted => position == start.m1...mk independent of the previous session position, any refusal => Err and the previous position is kept; ucinewgame resets; '
+         '(FIND) Board::find_move returns the first legal move whose notation equals the word, Err if none; (NOTATION) Ply::to_notation executed from MIR with a byte-level model of format!/Display: exactly the coordinate string with q/r/b/n suffix, injective.'),
+   design_ref='5 (C08)',
+   note=TB + ' <= 12 tokens, <= 4 (quick) / 8 (thorough) moves, 4 candidate legal moves. The legal move set is C01, make_move is C03, FEN reading is C07; stdin framing and the bestmove observation through a running search are outside.',
+   technique='symbolic execution of rustc MIR into z3 over abstract tokens / uninterpreted board terms; byte-level format! model; lemma composition'),
  'C09': dict(
    category='other',
    text=('Compositional: (WIRE) Uci::go passes max_depth == limits.depth and spawns exactly one search; (LIM) the real limits_exceeded on arbitrary state and limits fires only for a node/time reason '
